@@ -405,7 +405,8 @@ def strip_fn_counts(save, fns):
     save = re.sub(r'"previousContentObject":"[^"]*",?', "", save)
     for fn in fns:
         save = re.sub(r'"' + re.escape(fn) + r'(\.[^"]*)?":-?\d+,?', "", save)
-    return save
+    # (removing the last entry of a map leaves the separator of the one before: same treatment on both sides)
+    return save.replace(",}", "}")
 
 
 def save_part(save, field):
